@@ -276,8 +276,37 @@ func c08Choose(c *C08Choose, r *core.Rec) {
 	}
 }
 
+// c08BetaSweep: Beta(a,b) along a dense sweep of a+b (every 1/16 from 1/4 to 600)
+// for four ways of splitting the sum: catches thresholds on a+b (Gamma overflows
+// near 171.6) that the coarse (a,b) lattice steps over.
+func c08BetaSweep(r *core.Rec) {
+	for s16 := 4; s16 <= 600*16; s16++ {
+		sum := float64(s16) / 16
+		for _, fr := range []float64{0.5, 0.25, 0.1, 0.9371} {
+			a := sum * fr
+			b := sum - a
+			if a < 0.05 || b < 0.05 || a > 300 || b > 300 {
+				continue
+			}
+			got := mathx.Beta(a, b)
+			r.Trans(1)
+			want := math.Exp(mathext.Lbeta(a, b))
+			if want == 0 || math.IsInf(want, 0) {
+				continue
+			}
+			if !r.Err("Beta-sweep", math.Abs(got-want)/want, 1e-9) {
+				r.Fail("Beta", "Beta(%v,%v)=%v, reference %v", a, b, got, want)
+			}
+		}
+	}
+}
+
 func c08Misc(c *C08Misc, r *core.Rec) {
 	r.NT()
+	if c.What == "beta-sweep" {
+		c08BetaSweep(r)
+		return
+	}
 	cases := []struct{ x, want float64 }{
 		{math.Inf(-1), -1}, {-1, -1}, {-5e-324, -1}, {math.Copysign(0, -1), 0}, {0, 0}, {5e-324, 1}, {1, 1}, {math.Inf(1), 1}, {math.NaN(), math.NaN()},
 		{-1e308, -1}, {1e-308, 1},
@@ -331,6 +360,11 @@ func c08Run(c *core.Ctx) {
 		r.Try(func() { c08Choose(cc, r) })
 	}
 	r.Bound("Choose", "every (n,k), 0<=n<=1000, -1<=k<=n+1")
+	if c.Shard == 1%c.NShards {
+		mc := &C08Misc{What: "beta-sweep"}
+		r.Case("misc", mc)
+		r.Try(func() { c08Misc(mc, r) })
+	}
 	if c.First() {
 		mc := &C08Misc{What: "sign"}
 		r.Case("misc", mc)
